@@ -6,6 +6,7 @@ import (
 	"os"
 	"os/exec"
 	"path/filepath"
+	"sort"
 	"strings"
 
 	"verif/tgen"
@@ -22,6 +23,76 @@ func gate(name, templSrc string) (bool, string) {
 	}
 	out, err := m.Build(".", filepath.Join(tgen.Scratch(), "gatebin"))
 	return err == nil, out
+}
+
+// spellings returns every upper/lower-case spelling of word; the first letter stays as it is when
+// keepFirst is set (templ element names start with a lower-case letter).
+func spellings(word string, keepFirst bool) []string {
+	out := []string{""}
+	for i, r := range word {
+		var next []string
+		for _, p := range out {
+			next = append(next, p+string(r))
+			if !(keepFirst && i == 0) {
+				next = append(next, p+strings.ToUpper(string(r)))
+			}
+		}
+		out = next
+	}
+	return out
+}
+
+// exhaustiveGate compiles, in one package, one template per spelling of the element and attribute
+// names (a browser matches both without regard to letter case) in the plain and the conditional
+// form, each filled with a plain string. Every one of them has to be refused by the compiler.
+func exhaustiveGate() (n int, missing []string) {
+	files := map[string]string{"main.go": gateMain}
+	names := map[string]string{}
+	add := func(el, at string) {
+		for _, cond := range []bool{false, true} {
+			id := fmt.Sprintf("g%04d", len(names))
+			var src string
+			if cond {
+				src = fmt.Sprintf("package main\n\ntempl T%s(s string, c bool) {\n\t<%s\n\t\tif c {\n\t\t\t%s={ s }\n\t\t}\n\t>x</%s>\n}\n", id, el, at, el)
+			} else {
+				src = fmt.Sprintf("package main\n\ntempl T%s(s string) {\n\t<%s %s={ s }>x</%s>\n}\n", id, el, at, el)
+			}
+			files[id+".templ"] = src
+			names[id] = fmt.Sprintf("<%s %s={ string }> conditional=%v", el, at, cond)
+		}
+	}
+	for _, at := range spellings("href", false) {
+		add("a", at)
+	}
+	for _, el := range spellings("form", true) {
+		for _, at := range spellings("action", false) {
+			add(el, at)
+		}
+	}
+	m := &tgen.Module{Dir: filepath.Join(tgen.Scratch(), "gate-all"), Files: files}
+	if err := m.Write(); err != nil {
+		vlib.Fatal("gate-all: %v", err)
+	}
+	out, err := m.Build(".", filepath.Join(tgen.Scratch(), "gatebin"), "-gcflags=-e")
+	if err == nil {
+		out = ""
+	}
+	refused := map[string]bool{}
+	for _, line := range strings.Split(out, "\n") {
+		if !strings.Contains(line, "SafeURL") {
+			continue
+		}
+		if i := strings.Index(line, "_templ.go:"); i >= 5 {
+			refused[line[i-5:i]] = true
+		}
+	}
+	for id, what := range names {
+		if !refused[id] {
+			missing = append(missing, what)
+		}
+	}
+	sort.Strings(missing)
+	return len(names), missing
 }
 
 func main() {
@@ -51,6 +122,15 @@ func main() {
 		if !ok && c.compiles {
 			fmt.Fprintln(os.Stderr, out)
 		}
+	}
+	nGate, missing := exhaustiveGate()
+	res = append(res, fmt.Sprintf("all-spellings:%d", nGate))
+	for i, what := range missing {
+		if i == 5 {
+			res = append(res, fmt.Sprintf(" GATE-FAIL ...and %d more", len(missing)-5))
+			break
+		}
+		res = append(res, " GATE-FAIL plain string accepted: "+what)
 	}
 	os.Setenv("VERIF_C04_GATE", strings.Join(res, " "))
 	// build and run the child
